@@ -111,6 +111,8 @@ def convex_ring(rng, n, R, cx=0, cy=0):
         g = math.gcd(abs(a), abs(b))
         seen[(a // g, b // g)] = (a, b)
     vs = list(seen.values())
+    if len(vs) < 2:         # all edge vectors parallel: the "ring" would be a flat out-and-back (zero area, invalid polygon) — draw again
+        return convex_ring(rng, n, R, cx, cy)
     allv = vs + [(-a, -b) for a, b in vs]
     allv.sort(key=lambda v: math.atan2(v[1], v[0]))
     x, y = cx, cy
